@@ -38,7 +38,45 @@ def load_corpus(prop):
                 meta = json.load(open(mp))
                 if meta.get('property') == prop and meta.get('confirmed'):
                     out.append({'id': d, 'property': prop, 'kind': 'patch', 'patch': pp, 'rule': prop + '.'})
+    # behaviour-preserving refactorings written by independent sub-agents (refactors/<set>/rN.diff): must stay silent.
+    # A refactoring is tried for the properties whose anchored files it touches.
+    rd = os.path.join(VERIF, 'refactors')
+    if os.path.isdir(rd):
+        for st in sorted(os.listdir(rd)):
+            for fn in sorted(os.listdir(os.path.join(rd, st))):
+                if not fn.endswith('.diff'):
+                    continue
+                pp = os.path.join(rd, st, fn)
+                files = [l[6:].strip() for l in open(pp) if l.startswith('+++ b/')]
+                if any(prop in REFACTOR_FILEMAP.get(f_, ()) for f_ in files):
+                    out.append({'id': f'{st}-{fn[:-5]}', 'property': prop, 'kind': 'patch', 'patch': pp, 'rule': None})
     return out
+
+
+W_ = 'worterbuch/src/'
+REFACTOR_FILEMAP = {
+    W_ + 'store.rs': ('C01', 'C02', 'C04', 'C05', 'C06', 'C09', 'C17'),
+    W_ + 'subscribers.rs': ('C03', 'C04', 'C05'),
+    W_ + 'worterbuch.rs': ('C01', 'C02', 'C03', 'C05', 'C06', 'C07', 'C08', 'C16', 'C17', 'C18'),
+    W_ + 'auth.rs': ('C15',),
+    W_ + 'server/common/protocol/v0.rs': ('C13', 'C15', 'C03', 'C16'),
+    W_ + 'server/common/protocol/v1.rs': ('C13', 'C15', 'C06'),
+    W_ + 'server/common/protocol/mod.rs': ('C13', 'C15', 'C17'),
+    W_ + 'server/tcp.rs': ('C07', 'C14', 'C17'),
+    W_ + 'persistence/json/v3.rs': ('C09', 'C10'),
+    W_ + 'persistence/mod.rs': ('C09', 'C10', 'C12', 'C18'),
+    W_ + 'persistence/redb/mod.rs': ('C18',),
+    W_ + 'config.rs': ('C12',),
+    W_ + 'lib.rs': ('C02', 'C07', 'C11', 'C12', 'C13'),
+    W_ + 'leader_follower/leader.rs': ('C11', 'C12', 'C14', 'C17'),
+    W_ + 'leader_follower/follower.rs': ('C11', 'C12', 'C13'),
+    'worterbuch-cluster-orchestrator/src/election.rs': ('C19',),
+    'worterbuch-cluster-orchestrator/src/config.rs': ('C19', 'C12'),
+    'worterbuch-client/src/lib.rs': ('C20', 'C02'),
+    'worterbuch-client/src/buffer.rs': ('C20',),
+    'worterbuch-client/src/tcp.rs': ('C20', 'C14'),
+    'worterbuch-common/src/lib.rs': ('C04', 'C14', 'C17', 'C08'),
+}
 
 
 def violations_of(prop, root):
